@@ -27,7 +27,7 @@ class Gen:
         self.dtype = "float64" if rng.random() < 0.8 else "float32"
         self.n = rng.randint(2, 8)
         self.batch = rng.choice([[], [], [], [2], [1], [2, 1], [3, 2]]) if rng.random() < 0.45 else []
-        self.steps = rng.randint(4, 14)
+        self.steps = rng.randint(4, 14) if tier != "thorough" else rng.randint(4, 26)  # thorough: longer histories
         self.nt = 0
         self.no = 0
         # swarm: enabled subsets
@@ -58,7 +58,7 @@ class Gen:
                                          "min_preconditioning_size", "max_cholesky_size", "fast_log_prob", "fast_solves", "preconditioner_tolerance",
                                          "num_trace_samples", "deterministic_probes"]
                 self.focus_classes = ("AddedDiagLinearOperator", "KroneckerProductAddedDiagLinearOperator", "LowRankRootAddedDiagLinearOperator")
-                self.steps = rng.randint(8, 14)
+                self.steps = rng.randint(8, 14) if tier != "thorough" else rng.randint(8, 26)
                 self._theme_initial = [("max_cholesky_size", 0), ("min_preconditioning_size", 0), ("cg_tolerance", 1e-9),
                                        ("max_preconditioner_size", rng.choice([2, 3, 15]))]
             elif self.theme == "roots":
